@@ -1,59 +1,175 @@
 import NbioVerif.Model.ConnFull
+import NbioVerif.DrvCommon
+/-! conndrv: runs the ConnFull model on the ops of `hconn` (see harness/cmd/hconn/main.go for the protocol).
+
+`wire` and the ghost `accepted` are write-only for the model: every occurrence of the two fields in
+Model/ConnFull.lean has the form `wire := s.wire ++ …` / `accepted := s.accepted ++ …` (checked on every
+run by the predicate `cs_model_appends_only` of vlib/props_conn.py). The driver therefore empties them
+before every call and folds the bytes each call appends into a running (length, FNV-1a) pair instead of
+carrying megabytes of list through every step. -/
 open ConnFull
 
-def pattern (n seed : Nat) : List UInt8 := (List.range n).map (fun i => UInt8.ofNat ((i * 7 + seed) % 256))
-def fnv (b : List UInt8) : UInt64 :=
-  b.foldl (fun h x => (h ^^^ x.toUInt64) * 1099511628211) 14695981039346656037
+/-- content of the source file of Sendfile: byte i = (i*7 + 3) mod 256 (same as the harness) -/
+def fileByte (i : Nat) : UInt8 := UInt8.ofNat ((i * 7 + 3) % 256)
 
-def parseK (s : String) : KAns :=
-  if s == "a" then .eagain else if s == "i" then .eintr else if s == "f" then .fail
-  else .wrote (s.drop 1).toNat!
+def parseK (s : String) : Option KAns :=
+  if s == "eagain" then some .eagain else if s == "eintr" then some .eintr
+  else if s == "epipe" || s == "econnreset" then some .fail
+  else if s.startsWith "w" then (s.drop 1).toString.toNat?.map .wrote else none
 
-def parseKs (s : String) : List KAns := if s == "-" then [] else (s.splitOn ",").map parseK
-
-def showRet : Ret → String
-  | .ok n => s!"R {n} nil" | .closed n => s!"R {n} closed" | .overflow => "R -1 overflow"
-  | .io n => s!"R {n} io" | .again n => s!"R {n} again"
-
-def b2s (b : Bool) : String := if b then "1" else "0"
-
-def showS (s : S) : String :=
-  let items := String.intercalate "," (s.wl.map (fun t => toString (t.data.length - t.off)))
-  let ctl := String.intercalate "," (s.ctl.map (fun c => (if c.add then "A" else "M") ++ (if c.out then "w" else "r") ++ (if c.ok then "" else "!")))
-  s!"S closed={b2s s.closed} left={s.left} items=[{items}] wadded={b2s s.isWAdded} ctl=[{ctl}] wire={s.wire.length}:{fnv s.wire} onclose={s.onClose}"
+def parseKs (s : String) : Option (List KAns) :=
+  if s == "-" || s == "" then some [] else (s.splitOn ",").mapM parseK
 
 structure DS where
   g : Cfg
   s : S
+  wlen : Nat := 0
+  whash : UInt64 := 14695981039346656037
+  nctl : Nat := 0
+  dead : Bool := false
+
+def b2s (b : Bool) : String := if b then "1" else "0"
+
+def showErr : Err → String | .none => "nil" | .closed => "closed" | .overflow => "overflow" | .io => "io"
+def showRet (r : Ret) : String := s!"{r.n}:{showErr r.err}"
+
+def showItem : Item → String
+  | .buf d off => s!"b{d.length - off}/{d.length}"
+  | .file off rem => s!"f{off}+{rem}"
+
+def showCtl (g : Cfg) (c : Ctl) : String :=
+  (if c.add then "A" else "M") ++ "r" ++ (if c.out then "w" else "") ++
+  (match g.mode with | .lt => "" | .et => "e" | .oneshot => "eo") ++ (if c.ok then "" else "!")
+
+/-- absorb what the last call appended to the wire, print the canonical state -/
+def observe (d : DS) (s : S) : DS × String :=
+  let wlen := d.wlen + s.wire.length
+  let whash := s.wire.foldl (fun h x => (h ^^^ x.toUInt64) * 1099511628211) d.whash
+  let ctl := String.intercalate "," ((s.ctl.drop d.nctl).map (showCtl d.g))
+  let items := String.intercalate "," (s.wl.map showItem)
+  let str := s!"closed={b2s s.closed} left={s.left} wl=[{items}] wadded={b2s s.isWAdded} reg={b2s s.reg} ctl=[{ctl}] wire={wlen}:{whash} onclose={s.onClose}"
+  ({ d with s := { s with wire := [], accepted := [] }, wlen, whash, nctl := s.ctl.length }, str)
+
+inductive Call
+  | write (b : Bytes) (k : KAns)
+  | writev (bs : List Bytes) (k : KAns)
+  | sendfile (off len : Nat) (ks : List KAns)
+
+/-- "write <payload> K=<k>" | "writev <m> <payload>… K=<k>" | "sendfile <off> <len> K=<ks>" -/
+def parseCall (g : Cfg) (ws : List String) : Option Call := do
+  let ks ← parseKs ((Drv.field ws "K").getD "-")
+  let k1 : KAns := ks.headD .eagain
+  match ws with
+  | ["write", p, _] => some (.write (Drv.payload p) k1)
+  | "writev" :: m :: rest =>
+    let m ← m.toNat?
+    if rest.length ≠ m + 1 then none else some (.writev ((rest.take m).map Drv.payload) k1)
+  | ["sendfile", off, len, _] =>
+    let off ← off.toNat?
+    let len ← len.toNat?
+    if off > g.fsize then none else some (.sendfile off len ks)
+  | _ => none
+
+def doCall (g : Cfg) (s : S) : Call → S × Ret
+  | .write b k => write g s b k
+  | .writev bs k => writev g s bs k
+  | .sendfile off len ks => sendfile g s off len ks
+
+def parseMode (s : String) : Option Mode :=
+  if s == "lt" then some .lt else if s == "et" then some .et else if s == "oneshot" then some .oneshot else none
+
+/-- the calls issued inside the open callback: items separated by ';', tokens by '/' -/
+def parseOpen (g : Cfg) (s : String) : Option (List Call) :=
+  if s == "-" || s == "" then some [] else (s.splitOn ";").mapM fun it => parseCall g (it.splitOn "/")
+
+def hungLine : String := "hung"
 
 partial def loop (h : IO.FS.Stream) (d : DS) : IO Unit := do
   let line ← h.getLine
   if line.isEmpty then return ()
-  match line.trimAscii.toString.splitOn " " with
-  | ["C", tcp, mode, mwb] =>
-    let g : Cfg := { tcp := tcp == "1", mode := if mode == "lt" then .lt else if mode == "et" then .et else .oneshot, maxWB := mwb.toNat! }
-    IO.println "ok"; loop h { g, s := {} }
-  | ["P", n, seed, k] | ["W", n, seed, k] =>
-    let (s, r) := write d.g d.s (pattern n.toNat! seed.toNat!) (parseK k)
-    IO.println (showRet r); IO.println (showS s); loop h { d with s }
-  | "V" :: m :: rest =>
-    let m := m.toNat!
-    let sizes := (rest.take m).map String.toNat!
-    let seed := (rest[m]!).toNat!
-    let k := parseK rest[m+1]!
-    let bs := sizes.mapIdx (fun i n => pattern n (seed + i))
-    let (s, r) := writev d.g d.s bs k
-    IO.println (showRet r); IO.println (showS s); loop h { d with s }
-  | ["A"] =>
-    let s := pAddRead d.g d.s
-    IO.println (showS s); loop h { d with s }
-  | ["E", o, i, ks] =>
-    let s := event d.g d.s (o == "1") (i == "1") (parseKs ks)
-    IO.println (showS s); loop h { d with s }
-  | ["X"] =>
-    let s := if d.s.closed then d.s else closeNow d.s
-    IO.println (showS s); loop h { d with s }
-  | _ => IO.println "bad-op"; loop h d
+  let ws := (line.trimAscii.toString.splitOn " ").filter (· ≠ "")
+  match ws with
+  | "C" :: "real" :: _ =>
+    -- a case of the real-socket tier: the model's verdict is that the accepted stream arrives
+    IO.println "R ok"; loop h { d with dead := true }
+  | "C" :: cfg =>
+    let r : Option (Cfg × List Call) := do
+      let _ ← Drv.field cfg "typ"
+      let mode ← (Drv.field cfg "mode") >>= parseMode
+      let maxwb ← (Drv.field cfg "maxwb") >>= String.toNat?
+      let fsize ← (Drv.field cfg "fsize") >>= String.toNat?
+      let g : Cfg := { mode, maxWB := maxwb, fsize, file := fileByte }
+      let ow ← parseOpen g ((Drv.field cfg "openwrite").getD "-")
+      some (g, ow)
+    match r with
+    | none => IO.println "bad-op"; loop h { d with dead := true }
+    | some (g, ow) =>
+      let dial := Drv.field cfg "dial" == some "1"
+      -- open callback: the calls run before registration; DialAsync: addDialer first, then the connect
+      -- completes (EPOLLOUT) and the calls run inside the connected callback
+      let mut d : DS := { g, s := if dial then evTake g (registerDial g {}) true false false [] else {} }
+      let mut rs : List String := []
+      for c in ow do
+        let (s, r) := doCall g d.s c
+        rs := rs ++ [showRet r]
+        let (d', _) := observe d s
+        d := d'
+      let (d', str) := observe { d with nctl := 0 } (if dial then evEnd g d.s else register g d.s)
+      if d'.s.hung then IO.println hungLine; loop h { d' with dead := true }
+      else IO.println s!"R ow={String.intercalate ";" rs} {str}"; loop h d'
+  | "O" :: rest =>
+    if d.dead then IO.println "dead"; loop h d
+    else match rest with
+    | "event" :: bits :: more =>
+      let ks := parseKs ((Drv.field more "K").getD "-")
+      let cb : Option (Option Call) := match Drv.field more "cb" with
+        | none => some none
+        | some c => (parseCall d.g (c.splitOn "/")).map some
+      let race : Option (Option Call) := match Drv.field more "race" with
+        | none => some none
+        | some c => if bits == "i" && (Drv.field more "cb").isNone then (parseCall d.g (c.splitOn "/")).map some else none
+      match ks, cb, race with
+      | some ks, some cb, some race =>
+        let out := bits.contains 'o'; let inn := bits.contains 'i'; let err := bits.contains 'e'
+        let dl := deliverable d.s out inn err
+        let s1 := evTake d.g d.s out inn err ks
+        let (d1, _) := observe d s1
+        -- the data callback runs its call while the event is being handled
+        let (d2, cbs) := match cb with
+          | some c => if dl.2.1 && !d1.s.hung && !d1.s.closed then   -- a closed conn reads ErrClosed: no data callback
+                        let (s2, r) := doCall d.g d1.s c
+                        ((observe d1 s2).1, showRet r)
+                      else (d1, "-")
+          | none => (d1, "-")
+        let (d3, str) := observe { d2 with nctl := d.nctl } (evEnd d.g d2.s)
+        if d3.s.hung then IO.println hungLine; loop h { d3 with dead := true }
+        else
+          -- a racing call of another goroutine waits for the conn mutex: it runs after the poller's tail
+          let (d4, rcs, str) := match race with
+            | some c =>
+              let (s4, r) := doCall d.g d3.s c
+              let (d4, str4) := observe { d3 with nctl := d.nctl } { s4 with ctl := s4.ctl }
+              (d4, showRet r, str4)
+            | none => (d3, "-", str)
+          let dstr := (if dl.1 then "o" else "") ++ (if dl.2.1 then "i" else "") ++ (if dl.2.2 then "e" else "")
+          IO.println s!"R deliv={if dstr == "" then "-" else dstr} cb={cbs} rc={rcs} {str}"; loop h d4
+      | _, _, _ => IO.println "bad-op"; loop h { d with dead := true }
+    | ["close"] =>
+      let (d', str) := observe d (close d.s)
+      IO.println s!"R {str}"; loop h d'
+    | _ =>
+      match parseCall d.g rest with
+      | some c =>
+        let (s, r) := doCall d.g d.s c
+        let (d', str) := observe d s
+        IO.println s!"R n={r.n} err={showErr r.err} {str}"; loop h d'
+      | none => IO.println "bad-op"; loop h { d with dead := true }
+  | ["Q"] =>
+    if d.dead then IO.println "dead"; loop h d
+    else
+      let (d', str) := observe d d.s
+      IO.println s!"Q {str}"; loop h d'
+  | _ => IO.println "bad-op"; loop h { d with dead := true }
 
 def main : IO Unit := do
-  loop (← IO.getStdin) { g := { tcp := true, mode := .lt, maxWB := 0 }, s := {} }
+  loop (← IO.getStdin) { g := { mode := .lt, maxWB := 0, fsize := 0, file := fileByte }, s := {}, dead := true }
